@@ -7,7 +7,10 @@
 
     Payloads are opaque tokens here ([nat]); token 0 is "no rows"; odd tokens
     are payloads on which PRAGMA foreign_key_check reports a problem (the
-    harness numbers the real contents accordingly). *)
+    harness numbers the real contents accordingly).  Junk contents are
+    numbered from 1 by the harness; "junk0" is the model's [partial_copy]: the
+    truncated backup a crash inside shutil.copy leaves (steps "copy-create:v",
+    "copy-partial:v", "copy:v"). *)
 From Coq Require Import ZArith String List Bool Ascii.
 From Coq Require Import DecimalString DecimalNat DecimalZ.
 From MW Require Import Sql DbFiles.
@@ -90,7 +93,9 @@ Definition show_label (l : label) : string :=
   | LSelectVersion => "select_version"
   | LDbClose => "db_close"
   | LRename => "rename"
-  | LCopy v => "copy:" ++ show_Z v
+  | LCopyCreate v => "copy-create:" ++ show_Z v
+  | LCopyPartial v => "copy-partial:" ++ show_Z v
+  | LCopyDone v => "copy:" ++ show_Z v
   end.
 
 Definition show_exn (e : exn) : string :=
